@@ -1,7 +1,371 @@
-//! Further real-transport case kinds (framing after the hello, drop with a partial message,
-//! credentials in logs).
-use serde_json::{json, Value};
+//! Further real-transport case kinds run by the worker: framing after the hello (C12b), dropping
+//! the reading future while a message has partly arrived (C18b), credentials in logs (C20).
 
-pub async fn run_other(kind: &str, _case: &Value) -> Value {
-    json!({"verdict": "harness-error", "why": format!("unknown case kind {kind}")})
+use crate::memwire::MARKER;
+use crate::peers::{self, CloseManner, Endpoint, Listener, Tr};
+use crate::realwire::{hello_bytes, reply_bytes};
+use crate::secrets;
+use crate::trace;
+use crate::util::clip;
+use netconf::message::rpc::operation::{Builder, Get};
+use netconf::Session;
+use serde_json::{json, Value};
+use std::time::Duration;
+
+pub async fn run_other(kind: &str, case: &Value) -> Value {
+    match kind {
+        "framing" => run_framing(case).await,
+        "drop-partial" => run_drop_partial(case).await,
+        "creds" => run_creds(case).await,
+        _ => json!({"verdict": "harness-error", "why": format!("unknown case kind {kind}")}),
+    }
+}
+
+async fn connect_tls(port: u16) -> Result<Session<netconf::transport::Tls>, netconf::Error> {
+    Session::tls(("127.0.0.1", port), "localhost", peers::read_pem_cert("ca.crt"), peers::read_pem_cert("client.crt"), peers::read_pem_key("client.key")).await
+}
+
+fn chunked(msg: &[u8]) -> Vec<u8> {
+    // RFC 6242 4.2: \n#<len>\n<data>\n##\n
+    let body = msg.strip_suffix(MARKER.as_bytes()).unwrap_or(msg);
+    let mut v = format!("\n#{}\n", body.len()).into_bytes();
+    v.extend_from_slice(body);
+    v.extend_from_slice(b"\n##\n");
+    v
+}
+
+/// C12b: a conforming server switches to chunked framing after the hello exchange iff both
+/// peers advertised :base:1.1. An established session must be usable with it.
+async fn run_framing(case: &Value) -> Value {
+    let tr = Tr::parse(case["tr"].as_str().unwrap_or("tls")).unwrap();
+    let server_caps: Vec<&str> = case["server_versions"].as_array().map(|a| a.iter().filter_map(|v| v.as_str()).collect()).unwrap_or_default();
+    let mut caps: Vec<String> = server_caps.iter().map(|v| format!("urn:ietf:params:netconf:base:{v}")).collect();
+    caps.push("urn:ietf:params:netconf:capability:candidate:1.0".into());
+    let cap_refs: Vec<&str> = caps.iter().map(String::as_str).collect();
+    let hello = hello_bytes(&cap_refs);
+    let mut lis = match Listener::bind(tr).await {
+        Ok(l) => l,
+        Err(e) => return json!({"verdict": "harness-error", "why": format!("bind: {e}")}),
+    };
+    let ep = lis.endpoint.clone();
+    let pw = lis.ssh_password.clone();
+    let cl = tokio::spawn(async move {
+        async fn go<T: netconf::transport::Transport>(s: Result<Session<T>, netconf::Error>) -> (Result<String, String>, Option<Result<String, String>>) {
+            match s {
+                Err(e) => (Err(format!("{e:?}")), None),
+                Ok(mut s) => {
+                    let ctx = crate::sched::context_info(&s);
+                    let r = match tokio::time::timeout(Duration::from_secs(3), async {
+                        let f = s.rpc::<Get, _>(|b| b.finish()).await?;
+                        f.await
+                    })
+                    .await
+                    {
+                        Ok(Ok(v)) => Ok(v.to_string()),
+                        Ok(Err(e)) => Err(format!("{e:?}")),
+                        Err(_) => Err("TIMEOUT".into()),
+                    };
+                    (Ok(ctx), Some(r))
+                }
+            }
+        }
+        let to = Duration::from_secs(6);
+        match (tr, ep) {
+            (Tr::Tls, Endpoint::Tcp(p)) => match tokio::time::timeout(to, connect_tls(p)).await {
+                Ok(s) => go(s).await,
+                Err(_) => (Err("TIMEOUT".into()), None),
+            },
+            (Tr::Ssh, Endpoint::Tcp(p)) => match tokio::time::timeout(to, Session::ssh(("127.0.0.1", p), "vh".to_string(), pw.parse().unwrap())).await {
+                Ok(s) => go(s).await,
+                Err(_) => (Err("TIMEOUT".into()), None),
+            },
+            (Tr::Cli, Endpoint::Unix(path)) => {
+                let exe = std::env::current_exe().unwrap().to_string_lossy().into_owned();
+                let p = path.to_string_lossy().into_owned();
+                match tokio::time::timeout(to, Session::verif_junos_local(&exe, &["fake-cli", &p])).await {
+                    Ok(s) => go(s).await,
+                    Err(_) => (Err("TIMEOUT".into()), None),
+                }
+            }
+            _ => (Err("harness".into()), None),
+        }
+    });
+    let mut conn = match tokio::time::timeout(Duration::from_secs(8), lis.accept()).await {
+        Ok(Ok(c)) => c,
+        other => return json!({"verdict": "harness-error", "why": format!("accept: {:?}", other.map(|r| r.map(|_| ())))}),
+    };
+    let _ = conn.send_unit(&hello).await;
+    let mut from_client = Vec::new();
+    // client hello (always end-of-message framed)
+    let got_hello = conn.read_messages(&mut from_client, 1, Duration::from_secs(4)).await;
+    let client_hello = String::from_utf8_lossy(&from_client).into_owned();
+    let client_11 = client_hello.contains("urn:ietf:params:netconf:base:1.1");
+    let client_10 = client_hello.contains("urn:ietf:params:netconf:base:1.0");
+    let both_11 = client_11 && server_caps.contains(&"1.1");
+    let common = both_11 || (client_10 && server_caps.contains(&"1.0"));
+    // the request
+    let after_hello = from_client.len();
+    let mut request_framing = "none";
+    if got_hello && common {
+        // wait for request bytes in either framing
+        let t0 = std::time::Instant::now();
+        loop {
+            let rest = &from_client[after_hello.min(from_client.len())..];
+            let rest_s = String::from_utf8_lossy(rest);
+            if rest_s.trim_start().starts_with('#') || rest.starts_with(b"\n#") {
+                if rest.ends_with(b"\n##\n") {
+                    request_framing = "chunked";
+                    break;
+                }
+            } else if rest.windows(6).any(|w| w == MARKER.as_bytes()) {
+                request_framing = "end-of-message";
+                break;
+            }
+            if t0.elapsed() > Duration::from_secs(2) || !conn.read_some(&mut from_client, Duration::from_millis(50)).await {
+                break;
+            }
+        }
+        let want = if both_11 { "chunked" } else { "end-of-message" };
+        if request_framing == want {
+            let r = reply_bytes(1, "framing-tag", 0, false);
+            let _ = conn.send_unit(&if both_11 { chunked(&r) } else { r }).await;
+        }
+        // a conforming server cannot parse a request in the wrong framing: it does not answer
+    }
+    let (establish, rpc) = tokio::time::timeout(Duration::from_secs(10), cl).await.ok().and_then(Result::ok).unwrap_or((Err("client task lost".into()), None));
+    conn.close(CloseManner::Clean).await;
+    let established = establish.is_ok();
+    let mut symptoms: Vec<String> = Vec::new();
+    if established != common {
+        symptoms.push(format!("established={established}-but-common-version={common}"));
+    }
+    if established {
+        let want = if both_11 { "V1_1" } else { "V1_0" };
+        if !establish.as_ref().map_or(false, |c| c.contains(want)) {
+            symptoms.push("negotiated-version-not-highest-common".into());
+        }
+        match &rpc {
+            Some(Ok(v)) if v.starts_with("framing-tag") => {}
+            _ => symptoms.push(if both_11 { "base-1.1-negotiated-but-session-unusable-with-chunked-framing".into() } else { "first-rpc-failed".to_string() }),
+        }
+    }
+    json!({
+        "verdict": if symptoms.is_empty() { "held" } else { "violated" }, "symptoms": symptoms,
+        "server_versions": server_caps, "client_advertised": {"1.0": client_10, "1.1": client_11}, "establish": establish.as_ref().map(|c| clip(c, 100)).map_err(|e| clip(e, 200)),
+        "request_framing_seen_by_server": request_framing, "first_rpc": rpc.map(|r| r.map(|v| clip(&v, 60)).map_err(|e| clip(&e, 200))),
+    })
+}
+
+/// C18b: drop the future that is reading from the transport while a message has partly arrived.
+async fn run_drop_partial(case: &Value) -> Value {
+    let tr = Tr::parse(case["tr"].as_str().unwrap_or("tls")).unwrap();
+    let which = case["drop"].as_u64().unwrap_or(0) as usize; // which of the 2 outstanding futures is the (dropped) reader
+    let cut_frac = case["fraction"].as_u64().unwrap_or(2) as usize;
+    let hello = hello_bytes(&["urn:ietf:params:netconf:base:1.0"]);
+    let mut lis = match Listener::bind(tr).await {
+        Ok(l) => l,
+        Err(e) => return json!({"verdict": "harness-error", "why": format!("bind: {e}")}),
+    };
+    let ep = lis.endpoint.clone();
+    let pw = lis.ssh_password.clone();
+    let cl = tokio::spawn(async move {
+        async fn go<T: netconf::transport::Transport + 'static>(s: Result<Session<T>, netconf::Error>, which: usize) -> Value {
+            let mut s = match s {
+                Ok(s) => s,
+                Err(e) => return json!({"establish": format!("{e:?}")}),
+            };
+            let f0 = s.rpc::<Get, _>(|b| b.finish()).await;
+            let f1 = s.rpc::<Get, _>(|b| b.finish()).await;
+            let (Ok(f0), Ok(f1)) = (f0, f1) else { return json!({"establish": "rpc failed"}) };
+            tracing::info!(target: "vh::client", "requests-sent");
+            type BF = std::pin::Pin<Box<dyn std::future::Future<Output = Result<netconf::message::rpc::operation::Opaque, netconf::Error>> + Send>>;
+            let (f0, f1): (BF, BF) = (Box::pin(f0), Box::pin(f1));
+            let (dropped, survivor) = if which == 0 { (f0, f1) } else { (f1, f0) };
+            // poll the reader until the partial message has been consumed, then drop it
+            let r = tokio::time::timeout(Duration::from_millis(400), dropped).await;
+            let dropped_state = if r.is_err() { "dropped-while-reading" } else { "resolved-before-drop" };
+            tracing::info!(target: "vh::client", "reader-dropped");
+            let surv = match tokio::time::timeout(Duration::from_secs(3), survivor).await {
+                Ok(Ok(v)) => format!("ok:{v}"),
+                Ok(Err(e)) => format!("err:{e:?}"),
+                Err(_) => "timeout".into(),
+            };
+            let fresh = match tokio::time::timeout(Duration::from_secs(3), async {
+                let f = s.rpc::<Get, _>(|b| b.finish()).await?;
+                f.await
+            })
+            .await
+            {
+                Ok(Ok(v)) => format!("ok:{v}"),
+                Ok(Err(e)) => format!("err:{e:?}"),
+                Err(_) => "timeout".into(),
+            };
+            json!({"establish": "ok", "dropped": dropped_state, "survivor": surv, "fresh": fresh})
+        }
+        let to = Duration::from_secs(6);
+        match (tr, ep) {
+            (Tr::Tls, Endpoint::Tcp(p)) => match tokio::time::timeout(to, connect_tls(p)).await {
+                Ok(s) => go(s, which).await,
+                Err(_) => json!({"establish": "TIMEOUT"}),
+            },
+            (Tr::Ssh, Endpoint::Tcp(p)) => match tokio::time::timeout(to, Session::ssh(("127.0.0.1", p), "vh".to_string(), pw.parse().unwrap())).await {
+                Ok(s) => go(s, which).await,
+                Err(_) => json!({"establish": "TIMEOUT"}),
+            },
+            (Tr::Cli, Endpoint::Unix(path)) => {
+                let exe = std::env::current_exe().unwrap().to_string_lossy().into_owned();
+                let p = path.to_string_lossy().into_owned();
+                match tokio::time::timeout(to, Session::verif_junos_local(&exe, &["fake-cli", &p])).await {
+                    Ok(s) => go(s, which).await,
+                    Err(_) => json!({"establish": "TIMEOUT"}),
+                }
+            }
+            _ => json!({"establish": "harness"}),
+        }
+    });
+    let mut conn = match tokio::time::timeout(Duration::from_secs(8), lis.accept()).await {
+        Ok(Ok(c)) => c,
+        other => return json!({"verdict": "harness-error", "why": format!("accept: {:?}", other.map(|r| r.map(|_| ())))}),
+    };
+    let _ = conn.send_unit(&hello).await;
+    let mut from_client = Vec::new();
+    let got = conn.read_messages(&mut from_client, 3, Duration::from_secs(4)).await;
+    // the reply that the *dropped* reader will be in the middle of: the other request's reply comes
+    // first on the wire, so that the reader has to take someone else's message
+    let first_id = if which == 0 { 2 } else { 1 };
+    let r_first = reply_bytes(first_id, &format!("tag-{first_id}"), 64, false);
+    let second_id = 3 - first_id;
+    let r_second = reply_bytes(second_id, &format!("tag-{second_id}"), 0, false);
+    let cut = (r_first.len() * cut_frac / 4).clamp(1, r_first.len() - 1);
+    let _ = conn.send_unit(&r_first[..cut]).await;
+    // wait until the client dropped its reader
+    let t0 = std::time::Instant::now();
+    while !trace::snapshot().iter().any(|e| e.target == "vh::client" && e.msg.starts_with("reader-dropped")) && t0.elapsed() < Duration::from_secs(3) {
+        tokio::time::sleep(Duration::from_millis(5)).await;
+    }
+    let _ = conn.send_unit(&r_first[cut..]).await;
+    let _ = conn.send_unit(&r_second).await;
+    // the fresh rpc (message-id 3)
+    let _ = conn.read_messages(&mut from_client, 4, Duration::from_secs(4)).await;
+    let _ = conn.send_unit(&reply_bytes(3, "tag-3", 0, false)).await;
+    let out = tokio::time::timeout(Duration::from_secs(12), cl).await.ok().and_then(Result::ok).unwrap_or(json!({"establish": "client task lost"}));
+    conn.close(CloseManner::Clean).await;
+    let survivor_id = if which == 0 { 2 } else { 1 };
+    let mut symptoms = Vec::new();
+    if out["establish"] != "ok" || !got {
+        return json!({"verdict": "not-exercised", "why": format!("setup: {out}")});
+    }
+    if out["dropped"] != "dropped-while-reading" {
+        return json!({"verdict": "not-exercised", "why": "the reader resolved before it could be dropped", "client": out});
+    }
+    if !out["survivor"].as_str().map_or(false, |s| s.starts_with(&format!("ok:tag-{survivor_id}"))) {
+        symptoms.push("survivor-did-not-get-its-reply");
+    }
+    if !out["fresh"].as_str().map_or(false, |s| s.starts_with("ok:tag-3")) {
+        symptoms.push("session-unusable-after-drop");
+    }
+    json!({"verdict": if symptoms.is_empty() { "held" } else { "violated" }, "symptoms": symptoms, "client": out, "cut_at": cut, "reply_len": r_first.len()})
+}
+
+/// C20: connect with secrets while the complete TRACE output is captured; search it.
+async fn run_creds(case: &Value) -> Value {
+    let tr = Tr::parse(case["tr"].as_str().unwrap_or("ssh")).unwrap();
+    let outcome = case["outcome"].as_str().unwrap_or("success").to_string();
+    let password = case["password"].as_str().unwrap_or("pw").to_string();
+    let key_file = case["key"].as_str().unwrap_or("client.key").to_string();
+    let cert_file = case["cert"].as_str().unwrap_or("client.crt").to_string();
+    let hello = hello_bytes(&["urn:ietf:params:netconf:base:1.0"]);
+    let mut lis = match Listener::bind(tr).await {
+        Ok(l) => l,
+        Err(e) => return json!({"verdict": "harness-error", "why": format!("bind: {e}")}),
+    };
+    if outcome != "wrong-password" {
+        lis.ssh_password = password.clone();
+    }
+    let ep = lis.endpoint.clone();
+    trace::set_text(true);
+    let (pw2, kf, cf, oc) = (password.clone(), key_file.clone(), cert_file.clone(), outcome.clone());
+    let cl = tokio::spawn(async move {
+        async fn go<T: netconf::transport::Transport>(s: Result<Session<T>, netconf::Error>) -> String {
+            match s {
+                Err(e) => format!("establish-error: {e:?}"),
+                Ok(mut s) => {
+                    let r = tokio::time::timeout(Duration::from_secs(2), async {
+                        let f = s.rpc::<Get, _>(|b| b.finish()).await?;
+                        f.await
+                    })
+                    .await;
+                    format!("established; rpc: {}", match r { Ok(Ok(_)) => "ok".to_string(), Ok(Err(e)) => format!("{e:?}"), Err(_) => "timeout".into() })
+                }
+            }
+        }
+        let to = Duration::from_secs(6);
+        match (tr, ep) {
+            (Tr::Tls, Endpoint::Tcp(p)) => {
+                let ca = if oc == "untrusted-ca" { "other-ca.crt" } else { "ca.crt" };
+                let s = tokio::time::timeout(to, Session::tls(("127.0.0.1", p), "localhost", peers::read_pem_cert(ca), peers::read_pem_cert(&cf), peers::read_pem_key(&kf))).await;
+                match s {
+                    Ok(s) => go(s).await,
+                    Err(_) => "establish-timeout".into(),
+                }
+            }
+            (Tr::Ssh, Endpoint::Tcp(p)) => match tokio::time::timeout(to, Session::ssh(("127.0.0.1", p), "vh-user".to_string(), pw2.parse().unwrap())).await {
+                Ok(s) => go(s).await,
+                Err(_) => "establish-timeout".into(),
+            },
+            (Tr::Cli, Endpoint::Unix(path)) => {
+                let exe = std::env::current_exe().unwrap().to_string_lossy().into_owned();
+                let p = path.to_string_lossy().into_owned();
+                match tokio::time::timeout(to, Session::verif_junos_local(&exe, &["fake-cli", &p])).await {
+                    Ok(s) => go(s).await,
+                    Err(_) => "establish-timeout".into(),
+                }
+            }
+            _ => "harness".into(),
+        }
+    });
+    let accepted = tokio::time::timeout(Duration::from_secs(5), lis.accept()).await;
+    if let Ok(Ok(mut conn)) = accepted {
+        if outcome == "peer-closes-during-hello" {
+            let _ = conn.send_unit(&hello[..hello.len() / 2]).await;
+            conn.close(CloseManner::Abrupt).await;
+        } else {
+            let _ = conn.send_unit(&hello).await;
+            let mut from_client = Vec::new();
+            let _ = conn.read_messages(&mut from_client, 2, Duration::from_secs(3)).await;
+            let _ = conn.send_unit(&reply_bytes(1, "x", 0, false)).await;
+            tokio::time::sleep(Duration::from_millis(50)).await;
+            conn.close(CloseManner::Clean).await;
+        }
+    }
+    let client = tokio::time::timeout(Duration::from_secs(10), cl).await.ok().and_then(Result::ok).unwrap_or_else(|| "client task lost".into());
+    tokio::time::sleep(Duration::from_millis(30)).await;
+    trace::set_text(false);
+    let text = trace::text();
+    // what must not appear
+    let mut secrets_list: Vec<(String, Vec<u8>)> = Vec::new();
+    match tr {
+        Tr::Ssh => secrets_list.push(("ssh-password".into(), password.as_bytes().to_vec())),
+        Tr::Tls => {
+            let dir = peers::fixtures().join("pki");
+            let der = secrets::pem_der(&std::fs::read(dir.join(&key_file)).unwrap_or_default());
+            let public: Vec<Vec<u8>> = ["ca.crt", "other-ca.crt", "server.crt", "client.crt", "client-rsa.crt"].iter().map(|c| secrets::pem_der(&std::fs::read(dir.join(c)).unwrap_or_default())).collect();
+            for (k, seg) in secrets::sensitive_segments(&der, &public).into_iter().enumerate() {
+                secrets_list.push((format!("tls-client-key:der-segment-{k}"), seg));
+            }
+        }
+        Tr::Cli => {}
+    }
+    let mut hits = Vec::new();
+    for (name, s) in &secrets_list {
+        for h in secrets::search(&text, s) {
+            let line = secrets::line_at(&text, h.offset);
+            hits.push(json!({"secret": name, "encoding": h.encoding, "window": h.window, "target": secrets::target_of(&line), "line": clip(&line, 400)}));
+        }
+    }
+    json!({
+        "verdict": if hits.is_empty() { "held" } else { "violated" },
+        "hits": hits.iter().take(6).collect::<Vec<_>>(), "hit_count": hits.len(), "log_bytes": text.len(), "log_lines": text.iter().filter(|b| **b == b'\n').count(),
+        "client": clip(&client, 300), "secrets_checked": secrets_list.iter().map(|(n, s)| format!("{n} ({} bytes)", s.len())).collect::<Vec<_>>(),
+    })
 }
